@@ -2,7 +2,7 @@
 from __future__ import annotations
 
 from harness import impl
-from harness.common import rng, short
+from harness.common import quick_scale, rng, short
 from harness.gen import corpus, mutate, pyprog, xonshgen
 
 ALLOWED_ERR = {"err", "tokerr"}
@@ -40,7 +40,7 @@ def classify(src, out):
 
 def build_inputs(tier):
     r = rng("C03")
-    N = 1 if tier == "quick" else 40
+    N = quick_scale() if tier == "quick" else 40
     cases = []
     # the witnesses of the recorded findings run first, in every run
     cases.append(("kf-witness", "x = " + "(" * 120 + "y" + ")" * 120 + "\n", "exec"))
